@@ -305,4 +305,156 @@ theorem sameLeaves_states (f g : TForest) (h : sameLeavesT f g = true)
       simp only [dumpT, List.map_cons, List.map_append, ihk kids' h.1 hfk hgk, ihn next' h.2 hfn hgn,
         hs, hs', sameLeaves_spec kids kids' h.1]
 
+
+/-! ### Repeated reports and non-uniform presets (seed C11-7) -/
+
+theorem mergeStatus_zero_sound (v : TStatus) (o : Option TStatus) :
+    mergeStatus' .UNDEFINED v (opX v o) = opX v o := by
+  cases o with
+  | none => cases v <;> rfl
+  | some o => cases o <;> cases v <;> rfl
+
+theorem updStatusT_top (f : TForest) (p : List Nat) (s : TStatus) :
+    ((updStatusT f p s).2 = none → aggregateStatusT (updStatusT f p s).1 = aggregateStatusT f) ∧
+    (∀ v, (updStatusT f p s).2 = some v →
+      ∃ a o, aggregateStatusT f = opX a o ∧ aggregateStatusT (updStatusT f p s).1 = opX v o) := by
+  obtain ⟨e1, e2⟩ := updStatusT_forget f p s
+  obtain ⟨t1, t2⟩ := updStatus_top (forget f) p s
+  simp only [aggregateStatusT_forget, e1]
+  refine ⟨fun h => aggregateStatus_of_SU_eq _ _ (t1 (e2 ▸ h)), fun v hv => ?_⟩
+  obtain ⟨a, o, h1, h2⟩ := t2 v (e2 ▸ hv)
+  exact ⟨a, o, SU_eq_some _ _ h1, SU_eq_some _ _ h2⟩
+
+/-- The step of the whole argument: an aggregator that has folded nothing yet, or is the fold of its children,
+    IS the fold of its children after merging what the updated child hands up — also when that child did not change. -/
+theorem mergeStatusT_refolds (su v : TStatus) (kids : TForest) (rest : List Nat) (s : TStatus)
+    (hv : (updStatusT kids rest s).2 = some v)
+    (hpre : su = .UNDEFINED ∨ su = aggregateStatusT kids) :
+    mergeStatusT su v (updStatusT kids rest s).1 = aggregateStatusT (updStatusT kids rest s).1 := by
+  obtain ⟨a, o, h1, h2⟩ := (updStatusT_top kids rest s).2 v hv
+  rw [h2, mergeStatusT_forget, mergeStatus_eq, ← aggregateStatusT_forget, h2]
+  rcases hpre with h | h
+  · subst h; exact mergeStatus_zero_sound v o
+  · rw [h, h1]; exact mergeStatus_sound a v o
+
+theorem zeroOrFold_pathPre (f : TForest) (p : List Nat) (h : zeroOrFoldT f = true) : pathStatusPreT f p = true := by
+  fun_induction pathStatusPreT f p with
+  | case1 => rfl
+  | case2 => rfl
+  | case3 c tr st su next i rest ih => simp only [zeroOrFoldT] at h; exact ih h
+  | case4 => rfl
+  | case5 st su kids next rest ih =>
+    simp only [zeroOrFoldT, Bool.and_eq_true] at h
+    simp only [Bool.and_eq_true]; exact ⟨h.1.1, ih h.1.2⟩
+  | case6 st su kids next i rest ih =>
+    simp only [zeroOrFoldT, Bool.and_eq_true] at h; exact ih h.2
+
+theorem updStatusT_refolds_path (f : TForest) (p : List Nat) (s : TStatus)
+    (hpre : pathStatusPreT f p = true) (hv : (updStatusT f p s).2 ≠ none) :
+    pathStatusOkT (updStatusT f p s).1 p = true := by
+  fun_induction updStatusT f p s with
+  | case1 => simp [pathStatusOkT]
+  | case2 => exact absurd rfl hv
+  | case3 => simp [pathStatusOkT]
+  | case4 => exact absurd rfl hv
+  | case5 c tr st su next i rest s r ih =>
+    simp only [pathStatusPreT] at hpre
+    simp only [pathStatusOkT]; exact ih hpre hv
+  | case6 st su kids next rest s r hnone ih => exact absurd rfl hv
+  | case7 st su kids next rest s r v hsome su' ih =>
+    simp only [pathStatusPreT, Bool.and_eq_true, Bool.or_eq_true, decide_eq_true_eq] at hpre
+    simp only [pathStatusOkT, Bool.and_eq_true, decide_eq_true_eq]
+    exact ⟨mergeStatusT_refolds su v kids rest s hsome hpre.1, ih hpre.2 (by rw [show r.2 = some v from hsome]; simp)⟩
+  | case8 st su kids next i rest s r ih =>
+    simp only [pathStatusPreT] at hpre
+    simp only [pathStatusOkT]; exact ih hpre hv
+
+theorem updStatusT_zeroOrFold (f : TForest) (p : List Nat) (s : TStatus) (h : zeroOrFoldT f = true) :
+    zeroOrFoldT (updStatusT f p s).1 = true := by
+  fun_induction updStatusT f p s with
+  | case1 => rfl
+  | case2 => exact h
+  | case3 => exact h
+  | case4 => exact h
+  | case5 c tr st su next i rest s r ih => simp only [zeroOrFoldT] at h ⊢; exact ih h
+  | case6 st su kids next rest s r hnone ih =>
+    simp only [zeroOrFoldT, Bool.and_eq_true, Bool.or_eq_true, decide_eq_true_eq] at h ⊢
+    refine ⟨⟨?_, ih h.1.2⟩, h.2⟩
+    rw [(updStatusT_top kids rest s).1 hnone]; exact h.1.1
+  | case7 st su kids next rest s r v hsome su' ih =>
+    simp only [zeroOrFoldT, Bool.and_eq_true, Bool.or_eq_true, decide_eq_true_eq] at h ⊢
+    exact ⟨⟨Or.inr (mergeStatusT_refolds su v kids rest s hsome h.1.1), ih h.1.2⟩, h.2⟩
+  | case8 st su kids next i rest s r ih =>
+    simp only [zeroOrFoldT, Bool.and_eq_true] at h ⊢; exact ⟨h.1, ih h.2⟩
+
+theorem updStateT_aggStatus (f : TForest) (p : List Nat) (s : TState) :
+    aggregateStatusT (updStateT f p s).1 = aggregateStatusT f := by
+  rw [aggregateStatusT_forget, (updStateT_forget f p s).1, updState_SU, ← aggregateStatusT_forget]
+
+theorem updStateT_zeroOrFold (f : TForest) (p : List Nat) (s : TState) (h : zeroOrFoldT f = true) :
+    zeroOrFoldT (updStateT f p s).1 = true := by
+  fun_induction updStateT f p s with
+  | case1 => rfl
+  | case2 => exact h
+  | case3 => exact h
+  | case4 => exact h
+  | case5 c tr st su next i rest s r ih => simp only [zeroOrFoldT] at h ⊢; exact ih h
+  | case6 st su kids next rest s r hnone ih =>
+    simp only [zeroOrFoldT, Bool.and_eq_true, Bool.or_eq_true, decide_eq_true_eq] at h ⊢
+    refine ⟨⟨?_, ih h.1.2⟩, h.2⟩
+    rw [updStateT_aggStatus kids rest s]; exact h.1.1
+  | case7 st su kids next rest s r v hsome st' ih =>
+    simp only [zeroOrFoldT, Bool.and_eq_true, Bool.or_eq_true, decide_eq_true_eq] at h ⊢
+    refine ⟨⟨?_, ih h.1.2⟩, h.2⟩
+    rw [updStateT_aggStatus kids rest s]; exact h.1.1
+  | case8 st su kids next i rest s r ih =>
+    simp only [zeroOrFoldT, Bool.and_eq_true] at h ⊢; exact ⟨h.1, ih h.2⟩
+
+theorem updStatusT_reaches (f : TForest) (p : List Nat) (s : TStatus) (h : reachesLeafT f p = true) :
+    (updStatusT f p s).2 ≠ none ∧ (valAtT (updStatusT f p s).1 p).map (·.2) = some s := by
+  fun_induction updStatusT f p s with
+  | case1 => simp [reachesLeafT] at h
+  | case2 f s hne => cases f <;> simp_all [reachesLeafT]
+  | case3 => simp [valAtT]
+  | case4 => simp [reachesLeafT] at h
+  | case5 c tr st su next i rest s r ih =>
+    simp only [reachesLeafT] at h; simp only [valAtT]; exact ih h
+  | case6 st su kids next rest s r hnone ih =>
+    simp only [reachesLeafT] at h
+    exact absurd hnone (ih h).1
+  | case7 st su kids next rest s r v hsome su' ih =>
+    simp only [reachesLeafT] at h
+    refine ⟨by simp, ?_⟩
+    cases rest with
+    | nil => cases kids <;> simp [reachesLeafT] at h
+    | cons a as => simp only [valAtT]; exact (ih h).2
+  | case8 st su kids next i rest s r ih =>
+    simp only [reachesLeafT] at h; simp only [valAtT]; exact ih h
+
+
+theorem updStateT_reaches (f : TForest) (p : List Nat) (s : TState) (h : reachesLeafT f p = true) :
+    (valAtT (updStateT f p s).1 p).map (·.1) = some s := by
+  fun_induction updStateT f p s with
+  | case1 => simp [reachesLeafT] at h
+  | case2 f s hne => cases f <;> simp_all [reachesLeafT]
+  | case3 => simp [valAtT]
+  | case4 => simp [reachesLeafT] at h
+  | case5 c tr st su next i rest s r ih =>
+    simp only [reachesLeafT] at h; simp only [valAtT]; exact ih h
+  | case6 st su kids next rest s r hnone ih =>
+    simp only [reachesLeafT] at h
+    cases rest with
+    | nil => cases kids <;> simp [reachesLeafT] at h
+    | cons a as => simp only [valAtT]; exact ih h
+  | case7 st su kids next rest s r v hsome st' ih =>
+    simp only [reachesLeafT] at h
+    cases rest with
+    | nil => cases kids <;> simp [reachesLeafT] at h
+    | cons a as => simp only [valAtT]; exact ih h
+  | case8 st su kids next i rest s r ih =>
+    simp only [reachesLeafT] at h; simp only [valAtT]; exact ih h
+
+theorem traceT_cons (f : TForest) (us : List Update) : ∃ t, traceT f us = f :: t := by
+  cases us <;> exact ⟨_, rfl⟩
+
 end RoleTree
